@@ -155,8 +155,29 @@ theorem run_preserved (und : Bool) (R : AMat Int n) (itr : Nat) (ds : List Nat)
     (h : run und R itr ds = .ok (R', eff, rest)) (hs : und = true → IsSymm R.toFun) :
     (Preserved R.toFun R'.toFun ∧ (und = true → IsSymm R'.toFun)) ∧ rest.length ≤ ds.length ∧ (eff = 0 → R' = R) := by
   unfold run at h
-  cases und with
-  | true => simp only [if_true] at h; exact iters_preserved true _ _ R 0 ds h hs
-  | false => simp only [Bool.false_eq_true, if_false] at h; exact iters_preserved false _ _ R 0 ds h hs
+  split at h
+  · simp only [Except.ok.injEq, Prod.mk.injEq] at h
+    obtain ⟨rfl, rfl, rfl⟩ := h
+    exact ⟨⟨Preserved.refl _, hs⟩, le_refl _, fun _ => rfl⟩
+  · cases und with
+    | true => simp only [if_true] at h; exact iters_preserved true _ _ R 0 ds h hs
+    | false => simp only [Bool.false_eq_true, if_false] at h; exact iters_preserved false _ _ R 0 ds h hs
+
+/-- four pairwise distinct nodes need at least four nodes -/
+theorem four_le_of_distinct {a b c d : Fin n} (h : Distinct4 a b c d) : 4 ≤ n := by
+  obtain ⟨hab, hac, had, hbc, hbd, hcd⟩ := h
+  have hcard : ({a, b, c, d} : Finset (Fin n)).card = 4 := by
+    rw [Finset.card_insert_of_notMem, Finset.card_insert_of_notMem, Finset.card_insert_of_notMem, Finset.card_singleton]
+    · simpa using hcd
+    · simp [hbc, hbd]
+    · simp [hab, hac, had]
+  have := Finset.card_le_univ ({a, b, c, d} : Finset (Fin n))
+  rw [hcard, Fintype.card_fin] at this
+  exact this
+
+/-- with fewer than four nodes nothing is drawn and nothing is rewired -/
+theorem run_small (und : Bool) (R : AMat Int n) (itr : Nat) (ds : List Nat) (hn : n < 4) :
+    run und R itr ds = .ok (R, 0, ds) := by
+  unfold run; rw [if_pos hn]
 
 end Bct.Signed
